@@ -269,7 +269,9 @@ func allCallSitesFilteredIn(p *Program, fn *ssa.Function, busy map[*ssa.Function
 }
 
 // checkLowerMap: every computed byte maybeLower appends equals the ASCII lower-casing of the source byte, and source bytes
-// copied unchanged are never upper-case letters.
+// copied unchanged are never upper-case letters. The output is a sequence of pieces: per-byte appends inside a unit-stride
+// loop over the name (or over its tail x[k:]), and verbatim bulk copies of a head x[:k] where k is the first index at which
+// a search loop saw an upper-case byte.
 func checkLowerMap(c *Ctx, fn *ssa.Function) {
 	bs := newBSET(c.P)
 	n := 0
@@ -287,12 +289,117 @@ func checkLowerMap(c *Ctx, fn *ssa.Function) {
 		c.Undecided("LOWER", "maybeLower:signature", fn.Pos(), "the lowering function has no byte-slice parameter")
 		return
 	}
+	loops := naturalLoops(fn)
+	loopOf := func(h *ssa.BasicBlock) *natLoop {
+		for i := range loops {
+			if loops[i].header == h {
+				return &loops[i]
+			}
+		}
+		return nil
+	}
+	isUpper := func(d int64) bool { return d >= 'A' && d <= 'Z' }
+	// firstMatch: k is the index at which a unit-stride search over the name first met a byte for which the loop was left;
+	// the loop goes on only for bytes that are not upper-case letters. Then x[:k] holds no upper-case letter.
+	firstMatch := func(k ssa.Value) (bool, string) {
+		ph, ok := k.(*ssa.Phi)
+		if !ok {
+			return false, "the length of the head copied verbatim is not the result of a search loop"
+		}
+		counters := 0
+		for _, e := range ph.Edges {
+			if v, isC := constInt(e); isC {
+				if v > 0 {
+					return false, "the head copied verbatim may have a fixed positive length"
+				}
+				continue
+			}
+			cnt, ok := e.(*ssa.Phi)
+			if !ok {
+				return false, "the length of the head copied verbatim is not a loop counter"
+			}
+			if ok, why := unitStrideOver(cnt, nameParam); !ok {
+				return false, "search loop: " + why
+			}
+			l := loopOf(cnt.Block())
+			if l == nil {
+				return false, "search loop not found"
+			}
+			counters++
+			// every load x[cnt] in the loop: the edges that stay in the loop are not taken for upper-case bytes
+			loads := 0
+			for b := range l.body {
+				for _, in := range b.Instrs {
+					ld, ok := in.(*ssa.UnOp)
+					if !ok || ld.Op != token.MUL {
+						continue
+					}
+					ia, ok := ld.X.(*ssa.IndexAddr)
+					if !ok || ia.X != nameParam || ia.Index != ssa.Value(cnt) {
+						continue
+					}
+					loads++
+					isSym := func(x ssa.Value) bool { return sameElemLoad(x, ld) }
+					_, edges := bs.reachEdgesUnderSym(fn, isSym, byteDomain())
+					// latches reached under an upper-case byte?
+					for _, latch := range l.latches {
+						for e, ds := range edges {
+							if e[1] != l.header.Index || e[0] != latch.Index {
+								continue
+							}
+							for d := range ds {
+								if isUpper(d) {
+									return false, fmt.Sprintf("the search loop goes on after the upper-case byte %q: the head copied verbatim may contain it", rune(d))
+								}
+							}
+						}
+					}
+				}
+			}
+			if loads == 0 {
+				return false, "the search loop does not read the name at its counter"
+			}
+		}
+		if counters == 0 {
+			return false, "the length of the head copied verbatim is never a search position"
+		}
+		return true, ""
+	}
+	type bulk struct {
+		high ssa.Value
+		blk  *ssa.BasicBlock
+	}
+	var bulks []bulk
+	var perByteBlocks []*ssa.BasicBlock
+	var perByteLoops []*ssa.BasicBlock
 	eachInstr(fn, func(in ssa.Instruction) {
 		call, ok := in.(*ssa.Call)
 		if !ok {
 			return
 		}
 		if _, ok := isBuiltinCall(call, "append"); !ok || len(call.Call.Args) < 2 {
+			return
+		}
+		// bulk copy of a head of the name: append(dst, x[:k]...)
+		if sl, ok := call.Call.Args[1].(*ssa.Slice); ok && sl.X == nameParam {
+			n++
+			key := fmt.Sprintf("maybeLower:bulk#%d", n)
+			if sl.Low != nil {
+				if lo, isC := constInt(sl.Low); !isC || lo != 0 {
+					c.Viol("LOWER", key, in.Pos(), "a part of the name that does not start at its first byte is copied verbatim")
+					return
+				}
+			}
+			if sl.High == nil {
+				c.Viol("LOWER", key, in.Pos(), "the whole name is copied verbatim into the lowered buffer")
+				return
+			}
+			okFM, why := firstMatch(sl.High)
+			if okFM {
+				bulks = append(bulks, bulk{sl.High, call.Block()})
+				why = "the head copied verbatim ends where a search over the name first left its loop, and the loop goes on only for bytes that are not upper-case letters"
+			}
+			c.Check(okFM, "LOWER", key, in.Pos(), why)
 			return
 		}
 		elems := varargElems(call)
@@ -302,6 +409,7 @@ func checkLowerMap(c *Ctx, fn *ssa.Function) {
 		v := elems[0]
 		// the source byte: a load of x[i]
 		var src ssa.Value
+		hasPhi := false
 		seen := map[ssa.Value]bool{}
 		var find func(v ssa.Value)
 		find = func(v ssa.Value) {
@@ -323,6 +431,11 @@ func checkLowerMap(c *Ctx, fn *ssa.Function) {
 				find(x.Y)
 			case *ssa.Convert:
 				find(x.X)
+			case *ssa.Phi:
+				hasPhi = true
+				for _, e := range x.Edges {
+					find(e)
+				}
 			}
 		}
 		find(v)
@@ -335,22 +448,58 @@ func checkLowerMap(c *Ctx, fn *ssa.Function) {
 			okCov, why := ia.X == nameParam, "the bytes copied are not elements of the whole name parameter (a prefix or suffix is dropped)"
 			if okCov {
 				okCov, why = unitStrideOver(ia.Index, nameParam)
+			} else if tail, isSl := ia.X.(*ssa.Slice); isSl && tail.X == nameParam && tail.High == nil && tail.Low != nil {
+				// the tail x[k:], after a verbatim copy of the head x[:k]
+				okCov, why = unitStrideOver(ia.Index, tail)
+				if okCov {
+					okCov, why = false, "the bytes in front of the tail that is lowered are not copied"
+					for _, bk := range bulks {
+						if (bk.high == tail.Low || sameTerm(bk.high, tail.Low)) && bk.blk.Dominates(call.Block()) {
+							okCov, why = true, "the head is copied verbatim and every byte of the tail is copied"
+						}
+					}
+				}
 			}
 			if why == "" {
 				why = "every byte of the name is copied"
 			}
 			c.Check(okCov, "LOWER", key+":coverage", in.Pos(), why)
+			// the loop this append belongs to
+			var idxPhi *ssa.Phi
+			switch y := ia.Index.(type) {
+			case *ssa.Phi:
+				idxPhi = y
+			case *ssa.BinOp:
+				idxPhi, _ = y.X.(*ssa.Phi)
+			}
+			if idxPhi != nil {
+				perByteLoops = append(perByteLoops, idxPhi.Block())
+			}
+			perByteBlocks = append(perByteBlocks, call.Block())
 		}
-		isSym := func(x ssa.Value) bool { return x == src }
+		isSym := func(x ssa.Value) bool { return sameElemLoad(x, src) }
 		reach := bs.reachUnderSym(fn, isSym, byteDomain())
 		var bad []int64
 		for d := range reach[call.Block()] {
-			st := &evalState{e: bs, fn: fn, isSym: isSym, d: d, from: make([]int, len(fn.Blocks))}
-			got, ok := st.eval(v)
 			want := d
-			if d >= 'A' && d <= 'Z' {
+			if isUpper(d) {
 				want = d - 'A' + 'a'
 			}
+			if hasPhi {
+				got := phiValuesUnder(bs, fn, isSym, d, v)
+				okAll := len(got) > 0
+				for g := range got {
+					if g != want {
+						okAll = false
+					}
+				}
+				if !okAll {
+					bad = append(bad, d)
+				}
+				continue
+			}
+			st := &evalState{e: bs, fn: fn, isSym: isSym, d: d, from: make([]int, len(fn.Blocks))}
+			got, ok := st.eval(v)
 			if !ok || got != want {
 				bad = append(bad, d)
 			}
@@ -358,9 +507,66 @@ func checkLowerMap(c *Ctx, fn *ssa.Function) {
 		sort.Slice(bad, func(i, j int) bool { return bad[i] < bad[j] })
 		c.Check(len(bad) == 0, "LOWER", key, in.Pos(), "appended byte must be the ASCII lower-casing of the source byte; deviating source bytes: "+describeSet(bad, true))
 	})
-	if n < 2 {
+	// every iteration of a lowering loop appends: the header cannot be reached again around the appends
+	doneLoop := map[*ssa.BasicBlock]bool{}
+	nl := 0
+	for _, h := range perByteLoops {
+		if doneLoop[h] {
+			continue
+		}
+		doneLoop[h] = true
+		nl++
+		l := loopOf(h)
+		if l == nil {
+			continue
+		}
+		isAppend := map[*ssa.BasicBlock]bool{}
+		for _, b := range perByteBlocks {
+			isAppend[b] = true
+		}
+		seen := map[*ssa.BasicBlock]bool{}
+		var stack []*ssa.BasicBlock
+		for _, s := range h.Succs {
+			if l.body[s] && s != h {
+				stack = append(stack, s)
+			}
+		}
+		skips := false
+		for len(stack) > 0 {
+			b := stack[len(stack)-1]
+			stack = stack[:len(stack)-1]
+			if seen[b] || isAppend[b] {
+				continue
+			}
+			seen[b] = true
+			for _, s := range b.Succs {
+				if s == h {
+					skips = true
+				} else if l.body[s] {
+					stack = append(stack, s)
+				}
+			}
+		}
+		c.Check(!skips, "LOWER", fmt.Sprintf("maybeLower:every-iteration-appends#%d", nl), fn.Pos(), "an iteration of the lowering loop can end without appending a byte (a byte of the name is dropped)")
+	}
+	if len(perByteBlocks) < 1 {
 		c.Undecided("LOWER", "maybeLower:shape", fn.Pos(), "per-byte appends of maybeLower not recognised")
 	}
+}
+
+// sameElemLoad: v is a load of the same slice element as ref (go/ssa has no CSE: x[i] written twice is two loads).
+func sameElemLoad(v, ref ssa.Value) bool {
+	if v == ref {
+		return true
+	}
+	a, ok1 := v.(*ssa.UnOp)
+	b, ok2 := ref.(*ssa.UnOp)
+	if !ok1 || !ok2 || a.Op != token.MUL || b.Op != token.MUL {
+		return false
+	}
+	ia, ok1 := a.X.(*ssa.IndexAddr)
+	ib, ok2 := b.X.(*ssa.IndexAddr)
+	return ok1 && ok2 && ia.X == ib.X && ia.Index == ib.Index
 }
 
 var gfmRequired = []string{"Title", "Textarea", "Style", "Xmp", "Iframe", "Noembed", "Noframes", "Script", "Plaintext"}
@@ -692,4 +898,23 @@ func ruleFRAutomaton(c *Ctx) {
 	}
 	sort.Strings(table)
 	c.Lists["filterRaw_skip_states"] = table
+}
+
+const maybeLowerOriginal = "\thasUpper := false\n\tfor _, b := range x {\n\t\tif 'A' <= b && b <= 'Z' {\n\t\t\thasUpper = true\n\t\t\tbreak\n\t\t}\n\t}\n\tif !hasUpper {\n\t\treturn x\n\t}\n\n\t*buf = (*buf)[:0]\n\tfor _, b := range x {\n\t\tif 'A' <= b && b <= 'Z' {\n\t\t\t*buf = append(*buf, b-'A'+'a')\n\t\t} else {\n\t\t\t*buf = append(*buf, b)\n\t\t}\n\t}\n\treturn *buf\n"
+
+func maybeLowerHeadTail(searchPred, tailFrom string) string {
+	return "\tfirstUpper := -1\n\tfor i := 0; i < len(x); i++ {\n\t\tif " + searchPred + " {\n\t\t\tfirstUpper = i\n\t\t\tbreak\n\t\t}\n\t}\n\tif firstUpper < 0 {\n\t\treturn x\n\t}\n\t*buf = append((*buf)[:0], x[:firstUpper]...)\n\tfor _, b := range x[" + tailFrom + ":] {\n\t\tif 'A' <= b && b <= 'Z' {\n\t\t\tb += 'a' - 'A'\n\t\t}\n\t\t*buf = append(*buf, b)\n\t}\n\treturn *buf\n"
+}
+
+func init() {
+	addControls(
+		Control{Name: "neg-maybeLower-verbatim-head-then-tail", Props: []string{"C17"}, File: "html_renderer.go", Negative: true,
+			Old: maybeLowerOriginal, New: maybeLowerHeadTail("'A' <= x[i] && x[i] <= 'Z'", "firstUpper")},
+		Control{Name: "maybeLower-head-search-misses-Z", Props: []string{"C17"}, File: "html_renderer.go",
+			Old: maybeLowerOriginal, New: maybeLowerHeadTail("'A' <= x[i] && x[i] < 'Z'", "firstUpper"), Expect: "LOWER/maybeLower:bulk#",
+			Why: "a head that is copied verbatim because a search found no upper-case letter in it: the search has to know all of them ('Zap' keeps its Z and the filter misses <Zap>... spelled titlE)"},
+		Control{Name: "maybeLower-tail-skips-first-upper", Props: []string{"C17"}, File: "html_renderer.go",
+			Old: maybeLowerOriginal, New: maybeLowerHeadTail("'A' <= x[i] && x[i] <= 'Z'", "firstUpper+1"), Expect: "LOWER/maybeLower:byte#",
+			Why: "the byte at the first upper-case position is neither in the head nor in the tail"},
+	)
 }
